@@ -179,6 +179,13 @@ def build(spec, fx, objects=None):
             return (lambda: K.uniform(x, y, mu=mu, width=float(spec.get("w", 1.0)), height=float(spec.get("h", 1.0)))), [x, y, mu], None
         if which == "norm_cdf":
             return (lambda: K.norm_cdf(x)), [x], None
+        if which == "sbvn_cdf":
+            return (lambda: K.sbvn_cdf(x, y, mu_x=float(mu[0]), mu_y=float(mu[1]), sigma_x=float(spec.get("sx", 1.0)),
+                                       sigma_y=float(spec.get("sy", 1.0)))), [x, y], None
+        if which == "bvn_cdf":
+            sg = np.array(spec.get("sigma", [[1.0, 0.0], [0.0, 1.0]]), dtype=float)
+            return (lambda: K.bvn_cdf(x, y, mu_x=float(mu[0]), mu_y=float(mu[1]), sigma_xx=float(sg[0, 0]),
+                                      sigma_yy=float(sg[1, 1]), sigma_xy=float(sg[0, 1]))), [x, y], None
         raise InvalidCase("kernel")
     if fn == "weight":
         Wm = M["persim.images_weights"]
@@ -195,7 +202,7 @@ def build(spec, fx, objects=None):
         return (lambda: Wm.persistence(b, p, n=float(spec.get("n", 1.0)))), [b, p], None
     if fn in ("exact", "approx"):
         return build_landscape_call(spec, fx, M, D)
-    if fn in ("plot_diagrams", "bottleneck_matching", "wasserstein_matching", "plot_landscape_simple",
+    if fn in ("plot_diagrams", "bottleneck_matching", "wasserstein_matching", "plot_landscape_simple", "plot_landscape",
               "imager.plot_diagram", "imager.plot_image"):
         return build_plot_call(spec, fx, M, D)
     if fn == "persimage":
@@ -203,12 +210,49 @@ def build(spec, fx, objects=None):
         ds = [D("ds", i) for i in range(len(spec["ds"]))]
         arg = ds if spec.get("as_list", True) else ds[0]
 
-        def call():
+        what = spec.get("what", "transform")
+
+        def mk():
             with warnings.catch_warnings():
                 warnings.simplefilter("ignore")
-                obj = PI(pixels=(5, 5), spread=spec.get("spread"), verbose=False)
-            return obj.transform(arg)
-        return call, [arg], None
+                return PI(pixels=(5, 5), spread=spec.get("spread"), verbose=False)
+        if what == "transform":
+            return (lambda: mk().transform(arg)), [arg], None
+        d0 = ds[0]
+        if what == "to_landscape":
+            # static helper of the documented class: (b, d) -> (b, d - b)
+            return (lambda: PI.to_landscape(d0)), [d0], None
+        if what == "weighting":
+            bp = np.array(d0, dtype=float).reshape(-1, 2)
+            if not np.isfinite(bp).all():
+                raise Skip("finite")
+            bp[:, 1] -= bp[:, 0]
+            use = bool(spec.get("with_landscape", True))
+
+            def call_w():
+                w = mk().weighting(bp if use else None)
+                return [w(pt) for pt in bp]
+            return call_w, [bp], None
+        if what == "kernel":
+            data = np.array(fx["grid"]["x"][:3] + fx["grid"]["y"][:3], dtype=float).reshape(3, 2)
+            pix = np.array([0.25, 0.5])
+            return (lambda: mk().kernel(float(spec.get("kspread", 1.0)))(data, pix)), [data, pix], None
+        if what == "show":
+            imgs = [np.arange(25, dtype=float).reshape(5, 5) * (j + 1) for j in range(len(ds))]
+            arg_i = imgs if spec.get("as_list", True) else imgs[0]
+            holder = {}
+
+            def call_s():
+                plt, fig, ax = _fresh_axes()
+                env = spec.get("_env_after_axes")
+                if env is not None:
+                    env(plt)
+                mk().show(arg_i, ax=ax)
+                data = axes_data(ax)
+                plt.close(fig)
+                return data
+            return call_s, [arg_i], None
+        raise InvalidCase("persimage what")
     if fn == "obj":
         return build_obj_call(spec, fx, objects, D)
     raise InvalidCase("unknown fn %r" % (fn,))
@@ -257,6 +301,20 @@ def build_landscape_call(spec, fx, M, D):
             return a - mk(1)
         if what == "mul":
             return a * float(spec.get("c", 2.0))
+        if what == "rmul":
+            return float(spec.get("c", 2.0)) * a
+        if what == "div":
+            return a / float(spec.get("c", 2.0))
+        if what == "neg":
+            return -a
+        if what == "by_depth":
+            if fn != "exact":
+                raise Skip("exact landscapes only")
+            return a.compute_landscape_by_depth(int(spec.get("depth", 0)))
+        if what == "values_to_pairs":
+            if fn != "approx":
+                raise Skip("grid landscapes only")
+            return a.values_to_pairs()
         if what == "getitem":
             return a[0]
         if what == "death_vector":
@@ -345,6 +403,36 @@ def build_plot_call(spec, fx, M, D):
             L = Approx(dgms=dg, hom_deg=0, num_steps=30) if spec.get("approx") else Exact(dgms=dg, hom_deg=0)
             LV.plot_landscape_simple(L, ax=ax)
         return with_axes(draw, [dg])
+    if fn == "plot_landscape":
+        Exact = M["persim.landscapes.exact"].PersLandscapeExact
+        Approx = M["persim.landscapes.approximate"].PersLandscapeApprox
+        dg = [np.array(_bars(fx, spec["ds"][0]), dtype=float)]
+        LV = M["persim.landscapes.visuals"]
+
+        def call3d():
+            import matplotlib
+            matplotlib.use("Agg", force=False)
+            import matplotlib.pyplot as plt
+            L = Approx(dgms=dg, hom_deg=0, num_steps=15) if spec.get("approx") else Exact(dgms=dg, hom_deg=0)
+            kw = {}
+            if spec.get("title"):
+                kw["title"] = str(spec["title"])
+            if spec.get("depth_range"):
+                kw["depth_range"] = range(int(spec["depth_range"]))
+            with contextlib.redirect_stdout(io.StringIO()):
+                fig = LV.plot_landscape(L, num_steps=int(spec.get("steps", 12)), **kw)
+            if fig is None or len(fig.axes) != 1:
+                data = {"axes_in_returned_figure": None if fig is None else len(fig.axes)}
+            else:
+                ax = fig.axes[0]
+                data = {"title": ax.get_title(), "ylabel": ax.get_ylabel(), "lines": []}
+                for l in ax.lines:
+                    x, y, z = l.get_data_3d()
+                    data["lines"].append([np.asarray(x, float).tolist(), np.asarray(y, float).tolist(),
+                                          np.asarray(z, float).tolist()])
+            plt.close("all")
+            return data
+        return call3d, [dg], None
     if fn == "imager.plot_diagram":
         d = np.asarray(D("a"))
         if d.ndim != 2 or d.shape[0] == 0 or not np.isfinite(d.astype(float)).all():
@@ -385,6 +473,9 @@ def apply_obj_op(obj, kind, op, fx, D_of):
         return None, []
     if op["m"] == "birth_range=":
         obj.birth_range = (float(op["val"][0]), float(op["val"][1]))
+        return None, []
+    if op["m"] == "pers_range=":
+        obj.pers_range = (float(op["val"][0]), float(op["val"][1]))
         return None, []
     raise InvalidCase("method")
 
